@@ -264,7 +264,40 @@ def rule_hash_params_(ctx: Ctx, rep: Report) -> None:
     rule_hash_params(ctx, rep, "C03.hash_params", ('btclib.ecc.ssa', 'btclib.ecc.bip340_nonce', 'btclib.hashes'), 1)
 
 
+def rule_tagged_hash_layout(ctx: Ctx, rep: Report) -> None:
+    """C03.tagged_hash_layout: BIP340's tagged hash is hf(hf(tag) || hf(tag) || m):
+    the tag digest *twice*, whatever the hash function, then the message. The
+    bytes fed to the second hash before the message are the first hash's digest
+    added to itself (or times the constant 2) -- a count computed from the
+    block size is 2 for sha256 and 3 for sha1, and every signature, nonce and
+    challenge under that hash changes."""
+    rule = "C03.tagged_hash_layout"
+    fi = ctx.func("btclib.hashes.tagged_hash")
+    ups = sorted([c for c in own_nodes(fi.node) if isinstance(c, ast.Call) and isinstance(c.func, ast.Attribute) and c.func.attr == "update" and c.args], key=lambda c: c.lineno)
+    if len(ups) < 3:
+        rep.unknown(rule, "tagged_hash", fi.where(), f"{len(ups)} update calls")
+        return
+    first_obj = norm(ups[0].func.value)
+    second = [u for u in ups if norm(u.func.value) != first_obj]
+    digests = {a.targets[0].id for a in own_nodes(fi.node) if isinstance(a, ast.Assign) and isinstance(a.targets[0], ast.Name) and isinstance(a.value, ast.Call) and isinstance(a.value.func, ast.Attribute)
+               and a.value.func.attr == "digest" and norm(a.value.func.value) == first_obj}
+    e = second[0].args[0] if second else None
+    ok = False
+    if isinstance(e, ast.BinOp) and isinstance(e.op, ast.Add):
+        ok = isinstance(e.left, ast.Name) and isinstance(e.right, ast.Name) and e.left.id == e.right.id and e.left.id in digests
+    elif isinstance(e, ast.BinOp) and isinstance(e.op, ast.Mult):
+        nm, k = (e.left, e.right) if isinstance(e.left, ast.Name) else (e.right, e.left)
+        ok = isinstance(nm, ast.Name) and nm.id in digests and isinstance(k, ast.Constant) and k.value == 2
+    rep.ob(rule, "tagged_hash:prefix", ok, fi.where(second[0] if second else None), "hf(tag) || hf(tag)" if ok else f"the prefix is `{norm(e) if e is not None else None}`, not the tag digest twice")
+    okm = len(second) >= 2 and isinstance(second[1].args[0], ast.Name) and second[1].args[0].id == fi.params()[1]
+    rep.ob(rule, "tagged_hash:message", okm, fi.where(), "then the message")
+    okt = isinstance(ups[0].args[0], ast.Name) and ups[0].args[0].id == fi.params()[0]
+    rep.ob(rule, "tagged_hash:tag", okt, fi.where(ups[0]), "the first hash is of the tag")
+    rep.floor(rule, 3)
+
+
 RULES = [
+    ("C03.tagged_hash_layout", rule_tagged_hash_layout),
     ("C03.config_not_replaced", rule_config_not_replaced_),
     ("C03.hash_params", rule_hash_params_),
 
